@@ -611,7 +611,7 @@ func TestCheck(t *testing.T) {
 		r.Nontrivial("replay-b")
 		return
 	}
-	n := r.N(24, 240)
+	n := r.N(24, 1200)
 	rng := r.Rand("configs")
 	shard, _ := r.Shard()
 	scripts := [][]string{{"fast"}, {"slow"}, {"slow", "fast"}, {"retry", "fast"}, {"fast", "retry", "slow"}, {"dead", "fast"}, {"slow", "dead"}}
